@@ -503,6 +503,9 @@ ItemFrame(listId, nodeId, m, indent, pad) ==
      marker |-> SubSeq(MarkerStr(m), 1, 1), mtype |-> MarkerType(m), num |-> (IF "b" \in DOMAIN m THEN 0 ELSE m.n), indent |-> indent, pad |-> pad,
      bare |-> FALSE]
 
+(* whitespace behind a marker that stands alone on its line (the item begins with a blank line): none, one space, or more than four *)
+BsTrail(v) == IF Level = 2 THEN At(<<"", "     ", " ", "", "      ">>, v) ELSE ""
+
 (* the item frames at the top of the stack whose marker line has not been written yet and whose marker is ch *)
 PendingSame(ch) == {i \in DOMAIN open : open[i].kind = "item" /\ ~open[i].started /\ open[i].marker = ch /\ ch \in {"-", "*"}
                                           /\ \A j \in i..Len(open) : open[j].kind = "item" /\ ~open[j].started /\ open[j].marker = ch}
@@ -527,7 +530,7 @@ OpenList ==
        /\ IndOk(indent)
        /\ ~(last.kind = "list" /\ last.mtype = MarkerType(m))          \* two adjacent lists of one type are one list
        /\ ~(bs /\ Cardinality(PendingSame(MarkerStr(m))) >= 2)                   \* "- - -" on one line is a thematic break
-       /\ src' = IF bs THEN src \o sl \o <<LineNow(Spaces(indent) \o MarkerStr(m))>> ELSE src \o sl
+       /\ src' = IF bs THEN src \o sl \o <<LineNow(Spaces(indent) \o MarkerStr(m) \o BsTrail(v))>> ELSE src \o sl      \* (the marker may be followed by spaces)
        /\ nodes' = nodes \o <<Node("List", Parent, Len(src) + Len(sl) + 1, 0, NoText, [start |-> (IF "b" \in DOMAIN m THEN 0 ELSE m.n), ordered |-> ~("b" \in DOMAIN m)]),
                               Node("ListItem", Len(nodes) + 1, Len(src) + Len(sl) + 1, 0, NoText, "")>>
        /\ open' = IF bs THEN Append(Started(open), EmptyStartFrame(Len(nodes) + 1, Len(nodes) + 2, m, indent))
@@ -552,7 +555,7 @@ NextItem ==
        /\ LET m == IF Top.num = 0 /\ Top.marker \in Bullets THEN [b |-> Top.marker] ELSE [n |-> Top.num + 1, d |-> Top.mtype]
               outer == SubSeq(open, 1, Len(open) - 1)
               sl == IF IsBlank(sep) THEN <<BlankOf(outer, sep)>> ELSE << >> IN
-          /\ src' = IF bs THEN src \o sl \o <<Assemble(outer, "rest", 0, Spaces(Top.indent) \o MarkerStr(m))>> ELSE src \o sl
+          /\ src' = IF bs THEN src \o sl \o <<Assemble(outer, "rest", 0, Spaces(Top.indent) \o MarkerStr(m) \o BsTrail(pad + nblocks))>> ELSE src \o sl
           /\ nodes' = Append(nodes, Node("ListItem", Top.list, Len(src) + Len(sl) + 1, 0, NoText, ""))
           /\ open' = IF bs THEN Append(outer, EmptyStartFrame(Top.list, Len(nodes) + 1, m, Top.indent))
                            ELSE Append(outer, ItemFrame(Top.list, Len(nodes) + 1, m, Top.indent, pad))
